@@ -337,13 +337,14 @@ def treebanks(ctx):
         yield True, [t]
     # "a rule observed in several vertical contexts contributes the sum": contexts that differ only
     # in the fan-out of an ancestor (they fall together under nofanout) -- every discontinuous tiny
-    # tree with its continuous twin, in both orders and with unequal multiplicities
+    # tree with its continuous twin under every configuration (the other order and unequal multiplicities
+    # under the deterministic and a rotating sample of the Markov configurations)
     for t in tiny:
         if _discontinuous(t):
             twin = continuous_twin(t)
             yield True, [t, twin]
-            yield True, [twin, t]
-            yield True, [t, twin, t]
+            yield False, [twin, t]
+            yield False, [t, twin, t]
     k = b["small_pairs_from"]
     for i in range(min(k, len(tiny))):
         for j in range(i, min(k, len(tiny))):
